@@ -135,6 +135,10 @@ def _arm_terms(fi, body, kind, subj, out, base_env, self_name):
             else:
                 extra.append((text, pol))
         if not ops or len(ops) != 1:
+            if ops is None and kind == "UnaryOp" and any((lambda t: t and (t[0] == "op" or t[0].endswith(".op")))(op_test(ast.parse(text, mode="eval").body)) for text, _pol in conds):
+                # a value is returned on the path where every listed operator was ruled out: the remaining operators
+                # are handled by code this table does not see (e.g. delegated to another helper)
+                out["@unary-default-return"] = node.lineno
             continue
         op = next(iter(ops))
         env = dict(base_env)
@@ -212,6 +216,7 @@ def check(prog, rep):
         fi = prog.func(q)
         terms = gradient_arm_terms(prog, fi)
         helper_name = terms.pop("@unary-helper", None)
+        terms.pop("@unary-default-return", None)
         for key in sorted(k for k in terms if not k.endswith("@line")):
             t = terms[key]
             line = terms.get(key + "@line")
@@ -248,8 +253,12 @@ def check(prog, rep):
     # R02.4 unary coverage of the recursive walker = _OPS
     t0 = gradient_arm_terms(prog, prog.func(WALKERS[0]))
     t0.pop("@unary-helper", None)
+    dflt = t0.pop("@unary-default-return", None)
     for op in uops:
         ok = f"UnaryOp {op}" in t0
+        if not ok and dflt is not None:
+            rep.undecided(f"_gradient_cached[UnaryOp {op}]: no arm names {op!r}, but the unary rules return a value on their default path (line {dflt}); the operator may be handled there")
+            continue
         rep.ob("R02.4", f"_gradient_cached[UnaryOp {op}]", ok, "has a rule" if ok else f"unary operator {op!r} can be constructed but has no gradient rule", loc=prog.func(WALKERS[0]).loc, detail="unary-coverage")
     registered = registered_gradient_kinds(prog)
     d0 = dispatcher(prog, prog.func(WALKERS[0]))
@@ -543,30 +552,77 @@ def _loop_term(loop, fi, ex, wrt, kind=None):
 
 
 def _vector_container_branches(prog, rep, rules):
-    chk = {
-        "VectorSum": ("Constant(1.0)", "1"),
-        "L2Norm": (None, "x_j / ||x||"),
-        "L1Norm": (None, "x_j / |x_j|"),
-    }
+    """Variable-container branch of the registered vector rules, decided by a symbolic walk under two scenarios:
+    (member) wrt is the variable at position POS of the node's VectorVariable; (absent) it is not in it.  The returned
+    expression, locals substituted, must be the closed form of the rule; how the position is found (inline loop,
+    for/else, helper) and what the locals are called does not matter."""
+    from ..symexec import SymWalker
+
     for kind, fi in rules.items():
-        wrt = fi.node.args.args[1].arg
+        if kind not in ("VectorSum", "L2Norm", "L1Norm", "LinearCombination", "QuadraticForm"):
+            continue
         ex = fi.node.args.args[0].arg
-        s = src(fi.node)
-        if kind == "VectorSum":
-            ok = f"if var.name == {wrt}.name:\n            return Constant(1.0)" in s or "return Constant(1.0)" in s
-            rep.pin('registered rules: container branches', "R02.5", fi.name, ok, "d(sum x)/dx_j = 1" if ok else "member variables do not differentiate to 1", loc=fi.loc, detail="container-branch")
-        elif kind == "L2Norm":
-            ok = f"return _simplify_div({wrt}, {ex})" in s
-            rep.pin('registered rules: container branches', "R02.5", fi.name, ok, "d||x||/dx_j = x_j / ||x||" if ok else "the variable-container branch is not x_j / ||x||", loc=fi.loc, detail="container-branch")
-        elif kind == "L1Norm":
-            ok = f"return _simplify_div({wrt}, abs_({wrt}))" in s
-            rep.pin('registered rules: container branches', "R02.5", fi.name, ok, "d||x||_1/dx_j = x_j / |x_j|" if ok else "the variable-container branch is not x_j / |x_j|", loc=fi.loc, detail="container-branch")
-        elif kind == "LinearCombination":
-            ok = Frag(s, "for i, var in enumerate(vec._variables)", "return Constant(float(coeffs[i]))")
-            rep.pin('registered rules: container branches', "R02.5", fi.name, ok, "d(c.x)/dx_j = c[position of x_j]" if ok else "the coefficient is not indexed by the position at which the variable was found", loc=fi.loc, detail="container-branch")
-        elif kind == "QuadraticForm":
-            ok = Frag(s, "Q_sym = Q + Q.T", "row_coeffs = Q_sym[i, :]", "return LinearCombination(row_coeffs, vec)", "for i, var in enumerate(vec._variables)")
-            rep.pin('registered rules: container branches', "R02.5", fi.name, ok, "d(x'Qx)/dx_i = row i of (Q + Q')x" if ok else "the variable-container branch is not LinearCombination((Q + Q.T)[i, :], vec) for the position i of the variable", loc=fi.loc, detail="container-branch")
+        wrt = fi.node.args.args[1].arg
+        expected = {
+            "VectorSum": ["Constant(1.0)"],
+            "L2Norm": [f"_simplify_div({wrt}, {ex})"],
+            "L1Norm": [f"_simplify_div({wrt}, abs_({wrt}))"],
+            "LinearCombination": [f"Constant(float({ex}.coefficients[POS]))"],
+            "QuadraticForm": [f"LinearCombination(({ex}.matrix + {ex}.matrix.T)[POS, :], {ex}.vector)"],
+        }[kind]
+        what = {"VectorSum": "d(sum x)/dx_j = 1", "L2Norm": "d||x||/dx_j = x_j / ||x||", "L1Norm": "d||x||_1/dx_j = x_j / |x_j|",
+                "LinearCombination": "d(c.x)/dx_j = c[position of x_j]", "QuadraticForm": "d(x'Qx)/dx_i = row i of (Q + Q')x"}[kind]
+        for scen in ("member", "absent"):
+            def facts(t, scen=scen):
+                if isinstance(t, ast.Call) and dotted(t.func) == "isinstance" and len(t.args) == 2:
+                    if src(t.args[0]).endswith(".vector") and "VectorVariable" in src(t.args[1]):
+                        return True
+                    return None
+                if isinstance(t, ast.Compare) and len(t.ops) == 1 and isinstance(t.ops[0], (ast.Eq, ast.NotEq)):
+                    l, r = src(t.left), src(t.comparators[0])
+                    if {l, r} == {"OTHER.name", f"{wrt}.name"}:
+                        return isinstance(t.ops[0], ast.NotEq)
+                return None
+
+            def bind_loop(st, env, scen=scen):
+                from ..symexec import subst
+                it = subst(st.iter, env)
+                enum = isinstance(it, ast.Call) and dotted(it.func) == "enumerate" and it.args
+                seq = it.args[0] if enum else it
+                if not src(seq).endswith("._variables"):
+                    return None
+                # the body must be a pure search: a single `if <element>.name == wrt.name:` statement
+                if not (len(st.body) == 1 and isinstance(st.body[0], ast.If) and not st.body[0].orelse):
+                    return None
+                elem = ast.Name(id=wrt if scen == "member" else "OTHER", ctx=ast.Load())
+                if enum and isinstance(st.target, ast.Tuple) and len(st.target.elts) == 2:
+                    return {st.target.elts[0].id: ast.Name(id="POS", ctx=ast.Load()), st.target.elts[1].id: elem}
+                if not enum and isinstance(st.target, ast.Name):
+                    return {st.target.id: elem}
+                return None
+
+            w = SymWalker(prog, fi.module, facts, bind_loop)
+            try:
+                vals = w.returns(fi, {})
+            except Exception as e:  # TooManyPaths etc.
+                rep.undecided(f"{fi.name}: symbolic walk failed ({type(e).__name__})")
+                continue
+            texts = sorted({src(v).replace(" ", "") for v in vals})
+            if not texts:
+                rep.undecided(f"{fi.name}: no return reached in scenario {scen}")
+                continue
+            if scen == "absent":
+                ok = texts == ["Constant(0.0)"]
+                rep.ob("R02.5", fi.name, ok, "a variable that is not in the vector differentiates to Constant(0.0)" if ok else f"for a variable that does not occur in the vector the rule returns {texts[:2]} instead of Constant(0.0)", loc=fi.loc, detail="container-branch:absent")
+            else:
+                want = [e.replace(" ", "") for e in expected]
+                ok = texts == want
+                if not ok and any("OTHER" in t or len(t) > 200 for t in texts):
+                    rep.undecided(f"{fi.name}: member branch not interpretable: {texts[0][:80]}")
+                    continue
+                rep.ob("R02.5", fi.name, ok, what if ok else f"for the variable at position POS the rule returns `{texts[0][:90]}`{' (and others)' if len(texts) > 1 else ''}; expected `{expected[0]}` ({what})", loc=fi.loc, detail="container-branch")
+        if kind == "QuadraticForm":
+            s = src(fi.node)
             ok2 = Frag(s, "coeff = Q_sym[i, j]", "_simplify_mul(qf_i, d_elem)")
             rep.pin('registered rules: container branches', "R02.5", fi.name, ok2, "expression branch: sum_i [(Q + Q')f]_i * d f_i" if ok2 else "the expression-vector branch is not sum_i [(Q + Q')f]_i * d f_i", loc=fi.loc, detail="expression-branch")
 
